@@ -251,6 +251,18 @@ def main(run, shard=(0, 1)) -> None:
         text = roundtrip(run, vmf, opts, 'generated', case, features)
         if text is not None and i % 5 == 0:
             dup_ids_case(run, text, i)
+        if text is not None and i % 4 == 1:
+            # history: the map that has just been exported is edited through the public API and goes through all the laws
+            # again (nothing about an object may be remembered from an earlier export)
+            try:
+                n_edits = edit_map(vmf, rng)
+            except Exception as exc:
+                run.violation(f'editing an exported map raised {type(exc).__name__}: {exc}', witness=traceback.format_exc()[-1200:],
+                              case=dict(case, after_edit=True), engine='after-edit', key='edit-raises')
+                n_edits = 0
+            if n_edits:
+                run.count('maps_re_exported_after_edits')
+                roundtrip(run, vmf, opts, 'after-edit', dict(case, after_edit=True), features)
         nontrivial = bool(features.get('brush') or features.get('output') or features.get('fixup'))
         run.case(text if text is not None else ['noexport', i], nontrivial,
                  sample={'id': i, 'opts': opts, 'features': features, 'text_bytes': len(text or '')} if i < 3 else None, tag='generated')
@@ -275,7 +287,39 @@ def main(run, shard=(0, 1)) -> None:
             run.note_inconclusive(f'could not load seed document {path}: {exc!r}')
     probe.report(run)
     probe.check_reached(run)
-    run.require('exports', 'parses', 'file_form_exports', 'parses_from_file_name', 'colliding_id_documents')
+    run.require('exports', 'parses', 'file_form_exports', 'parses_from_file_name', 'colliding_id_documents', 'maps_re_exported_after_edits')
+
+
+def edit_map(vmf, rng) -> int:
+    """In-place edits of every kind of object in the map, through the public API."""
+    from srctools.vmf import Output
+    from srctools.math import Vec
+    n = 0
+    ents = list(vmf.entities)
+    for e in rng.sample(ents, min(len(ents), 3)):
+        e['edited_key'] = rng.choice(('v', '', 'with "quote"', '1 2 3'))
+        if 'targetname' in e:
+            e['targetname'] = e['targetname'] + '_e'
+        e.add_out(Output('OnEdited', 'tgt_e', 'Fire', rng.choice(('', 'p')), delay=rng.choice((0.0, 1.5))))
+        e.hidden = not e.hidden
+        e.comments = e.comments + ' edited'
+        if e.fixup:
+            for var in list(e.fixup)[:1]:
+                e.fixup[var] = 'edited'
+        n += 1
+    solids = list(vmf.brushes) + [sol for e in ents for sol in e.solids]
+    for sol in rng.sample(solids, min(len(solids), 3)):
+        sol.translate(Vec(16, -8, 4))
+        for f in sol.sides[:2]:
+            f.mat = f.mat + '_e'
+            f.lightmap = 32
+            f.uaxis.offset += 1.25
+        n += 1
+    vmf.spawn['edited_world_key'] = 'w'
+    for cam in list(vmf.cameras)[:1]:
+        cam.pos += (1, 2, 3)
+        n += 1
+    return n + 1
 
 
 def dup_ids_case(run, text: str, i: int) -> None:
@@ -305,7 +349,14 @@ def dup_ids_case(run, text: str, i: int) -> None:
 
 def replay(run, data) -> None:
     case = data['case']
-    if case.get('dup_ids'):
+    if case.get('after_edit'):
+        rng = sub_rng(run.seed, 'map', case['id'])
+        vmf, features = gen_vmf.gen_map(rng, size=rng.choice(('small', 'normal', 'normal', 'big')))
+        _ = (rng.random(), rng.random(), rng.random())
+        roundtrip(run, vmf, case['opts'], 'replay', case, features)
+        edit_map(vmf, rng)
+        roundtrip(run, vmf, case['opts'], 'replay-after-edit', case, features)
+    elif case.get('dup_ids'):
         rng = sub_rng(run.seed, 'map', case['id'])
         vmf, features = gen_vmf.gen_map(rng, size=rng.choice(('small', 'normal', 'normal', 'big')))
         opts = {'minimal': rng.random() < 0.25, 'disp_multiblend': rng.random() < 0.8, 'preserve_ids': rng.random() < 0.4}
